@@ -9,7 +9,8 @@ RULE = ("(seq) histories of Subscribe / Unsubscribe / BroadcastEvent / stop / re
         "recording actors, each value available through 2 distinct *PID objects with equal address and id (object 0 = the "
         "PID Spawn returned); 'stop' poisons the actor and waits, 'respawn' spawns a new recording actor under the same "
         "id; with 'remote' the engine has an in-memory Remoter and the same ids are also used behind a foreign address "
-        "(what the Remoter is given is logged per foreign PID); every step is made by the harness goroutine and followed "
+        "(what the Remoter is given is logged per foreign PID; in the 'look' variants the foreign twin of (node0:1, a/k) is "
+        "(node0:, 1a/k): different in both fields although address followed by id spells the same string); every step is made by the harness goroutine and followed "
         "by quiescence (event stream and all actors idle with empty inboxes). Exhaustive: all histories ending in an "
         "event of length <= 5 (thorough 7) over {sub,unsub} x {object 0, object 1} of one PID + event; length <= 3 "
         "(thorough 6) over a 7-letter alphabet with a second PID value; length <= 6 (thorough 8) over {sub, unsub through "
